@@ -77,6 +77,16 @@ def corr(ctx, n_quick=250, n_thorough=2000):
             reqs.append({"op": "add_arg", "args": to_model(call.args), "name": name, "value": value})
             impls.append({"args": out, "rendered": rendered, "src": src})
             continue
+        if rng.random() < 0.2:
+            # update_call_target, as the codemods use it: the callee swapped, optionally with the old callee as the new first argument
+            with_repl = rng.random() < 0.6
+            func = rng.choice(["run", None])
+            repl = [cst.Arg(call.func), *call.args] if with_repl else None
+            new = obj.update_call_target(call, "safe_command", func, replacement_args=repl)
+            reqs.append({"op": "call_target", "args": to_model(call.args), "name": "f", "target": "safe_command", "func": func,
+                         "replacement": to_model(repl) if repl is not None else None})
+            impls.append({"args": to_model(new.args), "rendered": cst.Module([]).code_for_node(new), "src": src, "callee": cst.Module([]).code_for_node(new.func)})
+            continue
         new_args = obj.replace_args(call, [NewArg(**s) for s in spec])
         new = call.with_changes(args=new_args)
         twice = obj.replace_args(new, [NewArg(**s) for s in spec])
@@ -90,6 +100,13 @@ def corr(ctx, n_quick=250, n_thorough=2000):
                 compile(code, "x", "eval"); return True
             except SyntaxError as e:
                 return "keyword argument repeated" in str(e)   # duplicates are a separate (semantic) compile error
+        if rq["op"] == "call_target":
+            impl_ans = {"args": im["args"], "callee": im["callee"], "wf_out": ok(im["rendered"]) if ok(im["src"]) else None}
+            model_ans = {"args": mo.get("args"), "callee": mo.get("callee"), "wf_out": mo.get("wf_out") if ok(im["src"]) else None}
+            changed = im["args"] != rq["args"]
+            ctx.corr_case(rq["op"], {k: v for k, v in rq.items() if k != "op"}, impl_ans, model_ans, changed, "call_target" + ("-repl" if rq["replacement"] else "") + ("-paren" if mo.get("args") != mo.get("old_args") else ""))
+            yield rq, im, impl_ans
+            continue
         impl_ans = {"args": im["args"], "wf_in": ok(im["src"]), "wf_out": ok(im["rendered"])}
         model_ans = {"args": mo["args"], "wf_in": mo["wf_in"], "wf_out": mo["wf_out"]}
         if "twice" in im:
